@@ -43,7 +43,9 @@ async function dynamic ({ leaf, resp, a, v, code, ctx }) {
             // (a spread this-argument may expand to nothing: the receiver is then undefined)
             if (ops.length < 1) problems.push({ sig: 'method-arity', d: `${name} called without the invoked function` })
             else if (typeof fn !== 'function') problems.push({ sig: 'method-fn', d: `${name}: second argument is not the function that was invoked (${w.canon(fn)})` })
-            else {
+            else if (fn.name === 'eval' && ops[1] === undefined) {
+              // a direct eval runs in the caller's scope: applying the function here would be an indirect one
+            } else {
               let exp; let threw = false
               try { exp = Reflect.apply(fn, ops[1], ops.slice(2)) } catch (e) { threw = true }
               if (threw || !sameValue(w, exp, res)) problems.push({ sig: 'method-result', d: `${name}: result ${w.canon(res)} is not fn.apply(receiver, args) = ${threw ? 'throw' : w.canon(exp)} for receiver ${w.canon(ops[1])} args ${w.canon(ops.slice(2))}` })
